@@ -191,11 +191,11 @@ pub fn run(run: &Run) {
     );
     run.assume("strings are generated without NUL except an optional final terminator; whether the terminator is kept in the value is left open by the statement");
     run.regressions(&replay);
-    run.random("construct", run.cases(60_000, 1_200_000), 0.5, strategy, check);
+    run.random("construct", run.cases(200_000, 3_000_000), 0.5, strategy, check);
     // arbitrary payloads (not produced by the reference packing): verdict and values must equal the reference decode
     run.random(
         "arbitrary-payloads",
-        run.cases(100_000, 2_000_000),
+        run.cases(400_000, 6_000_000),
         0.3,
         || {
             (vec(field().prop_map(|f| f.ty), 0..8), any::<bool>(), prop_oneof![vec(any::<u8>(), 0..40), vec(prop::sample::select(vec![0u8, 1, 2, 3, 4, 0x61, 0xC3, 0xA9, 0xFF]), 0..40)])
